@@ -338,8 +338,10 @@ def Builder.ofChanges (cs : List Change) (s : State) : Builder :=
   else ⟨cs.map (·.hash), cs, cs.length, .v1⟩
 
 /-- `MessageBuilder::new_v2(self.save(), all_hashes)`: `save()` is never empty, so there is always
-    one chunk, even for a document without changes -/
-def Builder.ofDoc (d : Doc) : Builder := ⟨d.hashes.reverse, d.applied.reverse, 1, .v2⟩
+    one chunk, even for a document without changes; `save()` (default `retain_orphans = true`)
+    appends the queued orphan changes after the document chunk, while `all_hashes` are the hashes
+    of the change graph only -/
+def Builder.ofDoc (d : Doc) : Builder := ⟨d.hashes.reverse, d.applied.reverse ++ d.queue, 1, .v2⟩
 
 /-- the `let message_builder = …` expression of `generate_sync_message` -/
 def mkBuilder (fp : Hash → Bool) (d : Doc) (s : State) : Builder :=
